@@ -59,7 +59,7 @@ def protocol(rep, quick):
     ends_load = [s for s in sp["seq2"] + s3 if s[-1] in ("undill_auto", "undill_noauto", "prepare")]
     seqs = [s for s in sp["seq1"] if s[-1].startswith("undill")] + [s for s in ends_load if len(s) == 2]
     seqs += [s for s in ends_load if len(s) == 3][:(24 if quick else 10000)]
-    seqs += s5[:(10 if quick else 10000)]
+    seqs += s5[:(10 if quick else 300)]
     seqs += [["trunc_funcs", "undill_noauto"], ["edit_iter", "trunc_lists", "undill_auto"]] + (trunc_all[:60] if not quick else [])
     # a load after every step of a long history (every prefix observed)
     seqs += [["edit_e", "undill_noauto", "undill_auto", "edit_iter", "undill_noauto", "undill_auto", "edit_svc", "undill_auto",
